@@ -61,6 +61,7 @@ package jet
 //@   props C05
 //@   requires r != nil
 //@   modifies r.iter, r.hasMore
+//@   check [setup-starts-a-new-iteration] {C05} ncalls("(reflect.Value).MapRange") == 1 && r.iter == lastret("(reflect.Value).MapRange", 0) && ncalls("(*reflect.MapIter).Next") == 1 && r.hasMore == lastret("(*reflect.MapIter).Next", 0)
 
 //@ func (*mapRanger).Range
 //@   props C05
